@@ -1,15 +1,22 @@
 """C06 -- cancel: True means the work never starts; it stops retries; it propagates.
 
+Evaluated on entry points (the public cancel() of each future class, the retry worker thread, the registered
+delegate callback) with private helpers inlined.  The queue, the job record and its fields (future, function,
+delegate future, stop flag), the executor lock, the delegate executor field and the cancel hook are discovered
+structurally (roles.py); no private helper is referred to by name.
+
 Decided:
   R-HANDOVER   retry: the delegate submit in the hand-over is dominated by a `future.done()` test (false) and both
-               lie inside that future's lock -- so a cancel() that returned True excludes a later hand-over
+               lie inside one hold of that future's lock -- so a cancel() that returned True excludes a later
+               hand-over
   R-STOPRETRY  a cancel request on a job with an attempt in flight sets the stop flag under the executor lock,
-               before the delegate cancel is attempted; the re-queue copies the flag inside the same lock hold as
-               the replacement; the policy is not consulted with the flag set; the loop never hands over a flagged job
-  R-TRUE       a cancel hook (_me_cancel / _cancel / _do_cancel) answers True only from an admissible source:
-               the delegate's own cancel() result, the removal of the job from a queue under that queue's lock, or
-               (poll) the cancel function's answer / absence
-  R-CANCEL-FWD every _me_cancel forwards to the current delegate's cancel() when one exists
+               before the delegate cancel is attempted; the re-queue reads and copies the flag inside the same lock
+               hold that swaps the jobs; the policy is not consulted with the flag set; the worker never hands over
+               a flagged job
+  R-TRUE       a cancel hook answers True only from an admissible source: the delegate's own cancel() result, the
+               removal of the future's own job from a queue under that queue's lock, or (poll) the cancel
+               function's answer / absence
+  R-CANCEL-FWD every cancel hook forwards to the current delegate's cancel() when one exists
   R-GUARDED    the throttle queue, the retry job list and the stop flag are only mutated with the executor's lock
 Not decided: 'running => cancel False and completes normally' depends on the delegate; all interleavings of
 cancel with resolution.
@@ -18,126 +25,192 @@ from ..core import where_of, trace_of
 from ..interp import fmt, contains, subterms
 from ..model import AnalysisError, ClassInfo
 from .. import q
+from .. import roles
 from .c02 import _no_cb_inline
 
-REMOVERS = set()
 MUT = {"append", "appendleft", "insert", "add", "extend", "pop", "popleft", "remove", "discard", "clear"}
+REMOVE = ("remove", "pop", "popleft")
+SELF = ("param", "self")
+
+
+class Q(object):
+    """a queueing executor: class, queue field, record class, role fields, lock fields"""
+
+    def __init__(self, ctx, cls):
+        self.cls = cls
+        self.field, self.rec, self.roles = roles.record_roles(ctx, cls)
+        self.locks = roles.lock_fields(ctx, cls)
+        if not self.locks:
+            raise AnalysisError("%s: no lock field found" % cls.name)
+
+    def is_queue(self, term, it, p):
+        return isinstance(term, tuple) and term[0] == "attr" and term[2] == self.field and it.type_of(term[1], p) == "C:" + self.cls.key
+
+    def lock_held(self, ev, owner):
+        return any(l[1][0] == "attr" and l[1][1] == owner and l[1][2] in self.locks for l in ev.locks if isinstance(l[1], tuple))
+
+    def lock_term(self, ev, owner):
+        for l in ev.locks:
+            if isinstance(l[1], tuple) and l[1][0] == "attr" and l[1][1] == owner and l[1][2] in self.locks:
+                return l[1]
+        return None
 
 
 def check(ctx, rep):
     prog = ctx.prog
-    rep.rule("R-HANDOVER", "RetryExecutor._submit_now: `job.future.done()` is tested (and found false) before the delegate submit, and test and submit share one hold of job.future._me_lock")
-    rep.rule("R-STOPRETRY", "stop_retry is set under the executor lock before the delegate's cancel() is tried; _retry copies it inside the lock hold that swaps the jobs; eval_policy tests it before calling the policy; the submit loop hands over no flagged job")
-    rep.rule("R-TRUE", "a cancel hook returns a true value only as (a) the result of the delegate future's cancel(), (b) after removing the job from the executor's queue under the queue's lock, or (c) the cancel function's own answer; never a bare True for a job it did not find")
-    rep.rule("R-CANCEL-FWD", "_me_cancel of every future class calls cancel() on its current delegate whenever a delegate is present, and its answer is returned")
+    rep.rule("R-HANDOVER", "retry hand-over: `job.future.done()` is tested (and found false) before the delegate submit, and test and submit share one hold of the future's own lock")
+    rep.rule("R-STOPRETRY", "the stop flag is set under the executor lock before the delegate's cancel() is tried; the re-queue reads the old job's flag and stores it in the replacement inside the lock hold that swaps the jobs; the policy is called only with the flag clear; the worker hands over no flagged job")
+    rep.rule("R-TRUE", "a cancel hook returns a true value only as (a) the result of the delegate future's cancel(), (b) after removing the future's own job from the executor's queue under the queue's lock, or (c) the cancel function's own answer; never a bare True for a job it did not find")
+    rep.rule("R-CANCEL-FWD", "the cancel hook of every future class calls cancel() on its current delegate whenever a delegate is present, and its answer is returned")
     rep.rule("R-GUARDED", "queue / job list / stop flag mutations happen with the owning executor's lock held")
     rex = prog.cls("RetryExecutor")
     tex = prog.cls("ThrottleExecutor")
-    SELF = ("param", "self")
+    fut = prog.cls("_Future")
+    rfut = prog.cls("RetryFuture")
+    hook = roles.cancel_hook(ctx, fut)
+    RQ = Q(ctx, rex)
+    TQ = Q(ctx, tex)
+    layer = roles.Layer(ctx, rex)
+    rep.require(layer.loop is not None and layer.callback is not None, "RetryExecutor: worker thread / delegate callback not identified")
+    DELEG = roles.delegate_field(ctx, rex)
+    flags = roles.false_init_fields(ctx, RQ.rec)
+    rep.require(len(flags) == 1, "%s: expected exactly one flag field (initialised False), found %s" % (RQ.rec.name, flags))
+    STOP = flags[0]
+    FUTF, FNF = RQ.roles["future"], RQ.roles["fn"]
+    REC = "C:" + RQ.rec.key
+    RREM = removers(ctx, RQ)
+    TREM = removers(ctx, TQ)
 
-    # ------------------------------------------------------------------ R-HANDOVER
-    sn = rex.methods.get("_submit_now")
-    ps, it = ctx.paths(sn, rex, depth=1)
-    J = ("param", sn.params[1])
-    FUT = ("attr", J, "future")
-    FL = ("attr", FUT, "_me_lock")
+    def is_rec(t, it, p):
+        if not isinstance(t, tuple):
+            return False
+        if it.type_of(t, p) == REC:
+            return True
+        c = roles.container_of(t)
+        return c != t and isinstance(c, tuple) and c[0] == "attr" and c[2] == RQ.field and it.type_of(c[1], p) in (None, "C:" + rex.key)
+
+    # ------------------------------------------------------------------ R-HANDOVER (worker thread root)
+    ps, it = ctx.paths(layer.loop, None, depth=6, inline=_no_cb_inline, loads=(STOP,))
     n = 0
+    DF = set()
     for p in ps:
-        subs = [e for e in p.calls() if q.call_name(e) == "submit" and q.recv(e) == ("attr", SELF, "_delegate")]
+        subs = [e for e in p.calls() if q.call_name(e) == "submit" and isinstance(q.recv(e), tuple) and q.recv(e)[0] == "attr" and q.recv(e)[2] == DELEG]
         for e in subs:
+            a0 = e.d["args"][0] if e.d["args"] else None
+            if not (isinstance(a0, tuple) and a0[0] == "attr" and a0[2] == FNF):
+                rep.ob("R-HANDOVER", "worker: the delegate receives the job's own function", False, "submit(%s, ...)" % (fmt(a0) if a0 else None), where_of(e.fn, e.node), trace_of(p, e.seq))
+                continue
             n += 1
+            J = a0[1]
+            FUT = ("attr", J, FUTF)
+            fl = [l[1] for l in e.locks if isinstance(l[1], tuple) and l[1][0] == "attr" and l[1][1] == FUT]
             tests = [b for b in p.evs("branch") if b.seq < e.seq and isinstance(b.d[0], tuple) and b.d[0][0] == "call" and b.d[0][1] == ("attr", FUT, "done")]
-            ok = bool(tests) and tests[-1].d[1] is False and q.has_lock(tests[-1], FL) and q.has_lock(e, FL)
-            same = ok and not [x for x in p.evs("exit") if x.d[1] == FL and tests[-1].seq < x.seq < e.seq]
-            why = "no done() test before the hand-over" if not tests else "the done() test or the submit is outside job.future._me_lock" if not ok else "the lock is released between the test and the submit"
-            rep.ob("R-HANDOVER", "_submit_now: done() re-checked under the future's lock, same hold as the delegate submit", ok and same, why + ": a cancel() returning True in between would still be followed by a submission", where_of(sn, e.node), trace_of(p, e.seq))
-        done_paths = [b for b in p.evs("branch") if isinstance(b.d[0], tuple) and b.d[0][0] == "call" and b.d[0][1] == ("attr", FUT, "done") and b.d[1] is True]
-        if done_paths:
-            rep.ob("R-HANDOVER", "_submit_now: a done (cancelled) future is not handed over", not subs, "delegate submit although the future is done", where_of(sn), trace_of(p))
-    rep.require(n >= 1, "_submit_now: delegate submit not found")
+            ok = bool(tests) and tests[-1].d[1] is False and bool(fl) and any(q.has_lock(tests[-1], L) for L in fl)
+            same = ok and any(roles.held_throughout(p, L, tests[-1], e) for L in fl)
+            why = "no done() test before the hand-over" if not tests else "the done() test or the submit is outside the future's own lock" if not ok else "the lock is released between the test and the submit"
+            rep.ob("R-HANDOVER", "worker: done() re-checked under the future's lock, same hold as the delegate submit", ok and same, why + ": a cancel() returning True in between would still be followed by a submission", where_of(e.fn, e.node), trace_of(p, e.seq))
+            # the stop flag excludes the hand-over
+            fb = [b for b in p.evs("branch") if b.d[0] == ("attr", J, STOP) and b.seq < e.seq]
+            rep.ob("R-STOPRETRY", "worker: a flagged job is never handed over", bool(fb) and fb[-1].d[1] is False, "the delegate submit is reached without excluding the job's stop flag", where_of(e.fn, e.node), trace_of(p, e.seq))
+            res = q.result_of(e)
+            for k, v in p.heap.items():
+                if k[0] == "attr" and v == res and is_rec(k[1], it, p):
+                    DF.add(k[2])
+        for b in p.evs("branch"):
+            t = b.d[0]
+            if b.d[1] is True and isinstance(t, tuple) and t[0] == "call" and isinstance(t[1], tuple) and t[1][0] == "attr" and t[1][2] == "done" and isinstance(t[1][1], tuple) and t[1][1][0] == "attr" and t[1][1][2] == FUTF:
+                later = [e for e in subs if e.seq > b.seq and e.d["args"] and e.d["args"][0] == ("attr", t[1][1][1], FNF) and not [x for x in p.evs("loop") if b.seq < x.seq < e.seq]]
+                rep.ob("R-HANDOVER", "worker: a done (cancelled) future is not handed over", not later, "delegate submit although the future is done", where_of(b.fn, b.node), trace_of(p))
+    rep.require(n >= 1, "retry worker: delegate submit not found")
+    rep.require(len(DF) == 1, "retry: the job field holding the delegate's future is not unique (%s)" % sorted(DF))
+    DFF = DF.pop()
 
-    # ------------------------------------------------------------------ R-STOPRETRY
-    cn = rex.methods.get("_cancel")
-    ps, it = ctx.paths(cn, rex, depth=1)
-    XL = ("attr", SELF, "_lock")
+    # ------------------------------------------------------------------ R-STOPRETRY (cancel root)
+    ps, it = ctx.paths(fut.methods["cancel"], rfut, depth=6, inline=_no_cb_inline, loads=(STOP,))
     nin = 0
     for p in ps:
-        dc = [e for e in p.calls() if q.call_name(e) == "cancel" and isinstance(q.recv(e), tuple) and q.recv(e)[0] == "attr" and q.recv(e)[2] == "delegate_future"]
-        st = [e for e in p.evs("store") if e.d["target"][0] == "attr" and e.d["target"][2] == "stop_retry" and e.d["value"] == ("const", True)]
+        dc = [e for e in p.calls() if q.call_name(e) == "cancel" and isinstance(q.recv(e), tuple) and q.recv(e)[0] == "attr" and q.recv(e)[2] == DFF and is_rec(q.recv(e)[1], it, p)]
+        st = [e for e in p.evs("store") if e.d["target"][0] == "attr" and e.d["target"][2] == STOP and e.d["value"] == ("const", True)]
         for e in dc:
             nin += 1
             job = q.recv(e)[1]
-            mine = [s for s in st if s.d["target"][1] == job]
-            ok = len(mine) >= 1 and mine[0].seq < e.seq and q.has_lock(mine[0], XL)
-            rep.ob("R-STOPRETRY", "_cancel: stop flag set under the executor lock before the delegate cancel is attempted", ok,
-                   "the attempt may finish and be re-queued while delegate.cancel() is still running; a flag set afterwards lands on the replaced job and retrying continues after cancel() returned" if mine else "no stop flag is set for an in-flight job", where_of(cn, e.node), trace_of(p, e.seq))
-    rep.require(nin >= 2, "_cancel: in-flight branch not found")
-    rt = rex.methods.get("_retry")
-    ps, it = ctx.paths(rt, rex, depth=1, inline=_pa_only)
+            mine = [s for s in st if s.d["target"][1] == job and s.seq < e.seq]
+            owner = [x for x in subterms(job) if it.type_of(x, p) == "C:" + rex.key] + [SELF]
+            ok = bool(mine) and any(RQ.lock_held(mine[0], o) for o in _owners(mine[0], RQ))
+            rep.ob("R-STOPRETRY", "cancel: stop flag set under the executor lock before the delegate cancel is attempted", ok,
+                   "the attempt may finish and be re-queued while delegate.cancel() is still running; a flag set afterwards lands on the replaced job and retrying continues after cancel() returned" if [s for s in st if s.d["target"][1] == job] or not mine and st else "no stop flag is set for an in-flight job" if not mine else "the flag is written without the executor lock", where_of(e.fn, e.node), trace_of(p, e.seq))
+    rep.require(nin >= 2, "RetryFuture.cancel: in-flight branch (delegate cancel attempted) not found")
+
+    # ------------------------------------------------------------------ R-STOPRETRY (delegate callback root)
+    ps, it = ctx.paths(layer.callback, rex, depth=6, inline=_no_cb_inline, loads=(STOP,))
+    nrq = 0
+    npol = 0
     for p in ps:
         if p.status != "return":
             continue
-        pops = [e for e in p.calls() if e.d["callee"] is not None and e.d["callee"].name == "_pop_job"]
-        apps = [e for e in p.calls() if e.d["callee"] is not None and e.d["callee"].name == "_append_job"]
-        st = [e for e in p.evs("store") if e.d["target"][0] == "attr" and e.d["target"][2] == "stop_retry" and e.fn is rt]
-        ok = len(pops) == 1 and len(apps) == 1 and len(st) == 1 and pops[0].seq < st[0].seq < apps[0].seq and all(q.has_lock(e, XL) for e in pops + apps + st) and not [x for x in p.evs("exit") if x.d[1] == XL and pops[0].seq < x.seq < apps[0].seq and len(x.stack) == 0]
-        rep.ob("R-STOPRETRY", "_retry: flag copied between pop and append, one hold of the executor lock", ok and st[0].d["value"] == ("attr", ("param", rt.params[1]), "stop_retry"), "the swap of the job and the copy of its stop flag are not atomic with respect to _cancel", where_of(rt), trace_of(p))
-    lp = prog.fn("retry:_submit_loop")
-    ps, it = ctx.paths(lp, None, depth=1, inline=_loop_inline)
-    for p in ps:
+        for a in p.calls():
+            if not (q.call_name(a) in ("append", "appendleft", "add", "insert") and RQ.is_queue(q.recv(a), it, p) and a.d["args"]):
+                continue
+            N = a.d["args"][-1]
+            if not is_rec(N, it, p):
+                continue
+            nrq += 1
+            owner = q.recv(a)[1]
+            key = "re-queue: the stop flag is carried over inside the lock hold that swaps the jobs"
+            w = [s for s in p.evs("store") if s.d["target"] == ("attr", N, STOP) and s.seq < a.seq]
+            val = w[-1].d["value"] if w else None
+            if not (w and isinstance(val, tuple) and val[0] == "attr" and val[2] == STOP and val[1] != N and is_rec(val[1], it, p)):
+                rep.ob("R-STOPRETRY", key, False, "the replacement job's stop flag is %s, not the old job's flag: a cancel request is forgotten by the retry" % (fmt(val) if val is not None else "never set"), where_of(a.fn, a.node), trace_of(p, a.seq))
+                continue
+            OLD = val[1]
+            lds = [e for e in p.evs("load") if e.d["target"] == val and e.seq <= w[-1].seq]
+            acts = [(e, j) for e, j in removal_actions(p, it, RQ, RREM) if e.seq < a.seq]
+            rms = [e for e, j in acts if j == OLD or (j is None and _removes(e, OLD, p))]
+            L = RQ.lock_term(a, owner)
+            ok = L is not None and bool(lds) and len(acts) == 1 and len(rms) == 1 and roles.held_throughout(p, L, min([lds[-1], rms[0]], key=lambda e: e.seq), a)
+            why = "the append is not under the executor lock" if L is None else "the old job is not removed exactly once before the append" if len(rms) != 1 or len(acts) != 1 else "the old job's flag is read, the old job removed and the new job added in different holds of the executor lock: a cancel() in between sets the flag on a job that is already being replaced"
+            rep.ob("R-STOPRETRY", key, ok, why, where_of(a.fn, a.node), trace_of(p, a.seq))
         for e in p.calls():
-            if e.d["callee"] is sn:
-                job = e.d["args"][0]
-                fl = [b for b in p.evs("branch") if b.d[0] == ("attr", job, "stop_retry") and b.seq < e.seq]
-                rep.ob("R-STOPRETRY", "_submit_loop: a flagged job is never handed over", bool(fl) and fl[-1].d[1] is False, "_submit_now(job) reached without excluding job.stop_retry", where_of(lp, e.node), trace_of(p, e.seq))
-    ep = prog.fn("retry:eval_policy")
-    ps, it = ctx.paths(ep, None, depth=0)
-    for p in ps:
-        pc = [e for e in p.calls() if e.d.get("user")]
-        fl = [b for b in p.evs("branch") if b.d[0] == ("attr", ("param", ep.params[0]), "stop_retry")]
-        if pc:
-            rep.ob("R-STOPRETRY", "eval_policy: the policy is consulted only with the flag clear", bool(fl) and fl[0].d[1] is False and fl[0].seq < pc[0].seq, "", where_of(ep), trace_of(p))
+            if e.d.get("user"):
+                npol += 1
+                recs = [x for x in subterms(e.d["func"]) if is_rec(x, it, p)] + [x for a_ in e.d["args"] for x in subterms(a_) if is_rec(x, it, p)]
+                fb = [b for b in p.evs("branch") if isinstance(b.d[0], tuple) and b.d[0][0] == "attr" and b.d[0][2] == STOP and b.d[0][1] in recs and b.seq < e.seq]
+                rep.ob("R-STOPRETRY", "callback: the policy is consulted only with the flag clear", bool(fb) and fb[-1].d[1] is False, "the retry policy is called for a job whose stop flag was not excluded", where_of(e.fn, e.node), trace_of(p, e.seq))
+    rep.require(nrq >= 1, "retry callback: re-queue (append of a replacement job) not found")
+    rep.require(npol >= 1, "retry callback: policy call not found")
 
     # ------------------------------------------------------------------ R-TRUE / R-CANCEL-FWD
-    REMOVERS.clear()
-    for ecls in (rex, tex):
-        for m in ecls.methods.values():
-            ps, it = ctx.paths(m, ecls, depth=0)
-            for p in ps:
-                for e in p.calls():
-                    r = q.recv(e)
-                    if e.fn is m and q.call_name(e) in ("remove", "pop", "popleft") and isinstance(r, tuple) and r[0] == "attr" and r[1] == SELF and r[2] in ("_to_submit", "_jobs") and q.has_lock(e, ("attr", SELF, "_lock")):
-                        # removes exactly the job it was given (found by identity)
-                        ident = any(isinstance(b.d[0], tuple) and b.d[0][0] == "cmp" and b.d[0][1] == "is" and b.d[1] is True and ("param", m.params[1]) in (b.d[0][2], b.d[0][3]) for b in p.evs("branch") if len(m.params) > 1)
-                        if ident:
-                            REMOVERS.add(m.key)
-    fut = prog.cls("_Future")
+    CFS = set()
+    for ci in ctx.executor_classes():
+        for f in roles.ctor_param_fields(ctx, ci, "cancel_fn"):
+            CFS.add(f)
+    queues = [(RQ, RREM), (TQ, TREM)]
     nme = 0
     for ci in prog.subclasses(fut, strict=True):
-        o, mc = ci.lookup("_me_cancel")
+        o, mc = ci.lookup(hook)
         if mc is None or mc.owner is fut:
             continue
         nme += 1
-        ps, it = ctx.paths(mc, ci, depth=4, inline=_no_cb_inline)
+        ftypes = _future_fields(ctx, ci, hook)
+        ps, it = ctx.paths(mc, ci, depth=5, inline=_no_cb_inline)
         for p in ps:
             if p.status == "raise":
                 continue
             v = p.value
             sig = q.path_sig(p)
-            deleg = [b for b in p.evs("branch") if q.self_field(b.d[0]) and b.d[0][2] in ("_delegate", "delegate_future")]
-            dcs = [e for e in p.calls() if q.call_name(e) == "cancel" and isinstance(q.recv(e), tuple) and (q.recv(e) in [b.d[0] for b in deleg] or (q.recv(e)[0] == "attr" and q.recv(e)[2] in ("_delegate", "delegate_future")))]
-            if deleg and deleg[0].d[1] is True and q.self_field(deleg[0].d[0]):
-                rep.ob("R-CANCEL-FWD", "%s._me_cancel forwards to the delegate's cancel()" % ci.name, len(dcs) >= 1, "a delegate is present but its cancel() is not called [%s]" % sig[:100], where_of(mc), trace_of(p))
-            # admissible sources of a true answer
-            truthy = _may_be_true(v, p)
-            if not truthy:
+            deleg = [(t, val, b) for t, val, b in q.atoms(p) if q.self_field(t) and t[2] in ftypes]
+            dcs = [e for e in p.calls() if q.call_name(e) == "cancel" and isinstance(q.recv(e), tuple) and (q.recv(e) in [t for t, val, b in deleg] or (q.recv(e)[0] == "attr" and (q.recv(e)[2] in ftypes or q.recv(e)[2] == DFF)))]
+            if deleg and deleg[0][1] is True:
+                rep.ob("R-CANCEL-FWD", "%s.%s forwards to the delegate's cancel()" % (ci.name, hook), len(dcs) >= 1, "a delegate is present but its cancel() is not called [%s]" % sig[:100], where_of(mc), trace_of(p))
+            if not _may_be_true(v, p):
                 continue
-            src = _source(v, p, it, dcs)
-            rep.ob("R-TRUE", "%s._me_cancel: True only from an admissible source" % ci.name, src is not None, "returns %s on path [%s] which is neither the delegate's cancel() result, nor follows a removal from the queue under its lock, nor the cancel function's answer" % (fmt(v), sig[:140]), where_of(mc), trace_of(p))
-    rep.count("_me_cancel implementations", nme, 4)
+            looked = [t for t, val, b in q.atoms(p) if isinstance(t, tuple) and t[0] == "attr" and (t[2] in ftypes or t[2] == DFF)] or dcs
+            rep.ob("R-CANCEL-FWD", "%s.%s consults the delegate before answering True" % (ci.name, hook), bool(looked), "may return %s without ever looking at the future's delegate: an attempt already handed to the delegate keeps running although cancel() said True [%s]" % (fmt(v), sig[:100]), where_of(mc), trace_of(p))
+            src = _source(v, p, it, dcs, queues, CFS)
+            rep.ob("R-TRUE", "%s.%s: True only from an admissible source" % (ci.name, hook), src is not None, "returns %s on path [%s] which is neither the delegate's cancel() result, nor follows the removal of the future's job from the queue under its lock, nor the cancel function's answer" % (fmt(v), sig[:140]), where_of(mc), trace_of(p))
+    rep.count("cancel hook implementations", nme, 4)
 
     # ------------------------------------------------------------------ R-GUARDED
-    guarded = [(tex, "_to_submit", "_lock"), (rex, "_jobs", "_lock")]
     ng = 0
     for fi in sorted(prog.functions.values(), key=lambda f: f.key):
         if fi.parent is not None or fi.name == "__init__":
@@ -150,24 +223,80 @@ def check(ctx, rep):
                         continue
                     r = q.recv(e)
                     if isinstance(r, tuple) and r[0] == "attr" and q.call_name(e) in MUT:
-                        for owner, fld, lk in guarded:
-                            if r[2] == fld and it.type_of(r[1], p) == "C:" + owner.key:
+                        for Qx, _rem in queues:
+                            if Qx.is_queue(r, it, p):
                                 ng += 1
-                                ok = q.has_lock(e, ("attr", r[1], lk))
+                                ok = Qx.lock_held(e, r[1])
                                 # helpers that are only called with the lock held
                                 if not ok:
                                     cs = ctx.callgraph().get(fi.key, set())
-                                    ok = bool(cs) and _callers_hold(ctx, fi, cs, owner, lk)
-                                rep.ob("R-GUARDED", "%s: %s.%s under the executor lock" % (fi.qualname, fld, q.call_name(e)), ok, "%s.%s() without %s held" % (fld, q.call_name(e), lk), where_of(fi, e.node), trace_of(p, e.seq))
+                                    ok = bool(cs) and _callers_hold(ctx, fi, cs, Qx)
+                                rep.ob("R-GUARDED", "%s: %s queue %s under the executor lock" % (fi.qualname, Qx.cls.name, q.call_name(e)), ok, "%s.%s() without the executor lock held" % (Qx.field, q.call_name(e)), where_of(fi, e.node), trace_of(p, e.seq))
                 for s in p.evs("store"):
                     t = s.d["target"]
-                    if s.fn is fi and t[0] == "attr" and t[2] == "stop_retry" and fi.owner is rex:
+                    if s.fn is fi and t[0] == "attr" and t[2] == STOP and it.type_of(t[1], p) == REC:
                         ng += 1
-                        rep.ob("R-GUARDED", "%s: stop_retry written under the executor lock" % fi.qualname, q.has_lock(s, XL), "stop_retry written without the executor lock", where_of(fi, s.node), trace_of(p, s.seq))
+                        ok = any(RQ.lock_held(s, o) for o in _owners(s, RQ))
+                        rep.ob("R-GUARDED", "%s: stop flag written under the executor lock" % fi.qualname, ok, "the stop flag is written without the executor lock", where_of(fi, s.node), trace_of(p, s.seq))
     rep.count("guarded mutations", ng, 8)
 
 
-def _callers_hold(ctx, fi, cs, owner, lk):
+def removers(ctx, Qx):
+    """methods of the executor that search the queue for the job they are given (by identity) and remove it"""
+    out = set()
+    for c in Qx.cls.mro():
+        if not isinstance(c, ClassInfo):
+            continue
+        for m in c.methods.values():
+            if len(m.params) < 2 or Qx.cls.lookup(m.name)[1] is not m:
+                continue
+            ps, it = ctx.paths(m, Qx.cls, depth=0)
+            for p in ps:
+                for e in p.calls():
+                    if e.fn is m and q.call_name(e) in REMOVE and Qx.is_queue(q.recv(e), it, p) and _removes(e, ("param", m.params[1]), p):
+                        out.add(m.key)
+    return out
+
+
+def removal_actions(p, it, Qx, rem):
+    """removals from the queue on this path: [(event, removed job or None)] -- a call of a remover helper counts
+    once (what happens inside it is its own business)"""
+    remcalls = [e for e in p.calls() if e.d["callee"] is not None and e.d["callee"].key in rem]
+    top = [e for e in remcalls if not any(c.node in e.stack for c in remcalls if c is not e)]
+    acts = [(e, e.d["args"][0] if e.d["args"] else None) for e in top]
+    for e in p.calls():
+        if q.call_name(e) in REMOVE and Qx.is_queue(q.recv(e), it, p) and not any(c.node in e.stack for c in top):
+            acts.append((e, None))
+    acts.sort(key=lambda x: x[0].seq)
+    return acts
+
+
+def _owners(ev, Qx):
+    """owner terms of the executor-lock-like locks held at an event"""
+    return [l[1][1] for l in ev.locks if isinstance(l[1], tuple) and l[1][0] == "attr" and l[1][2] in Qx.locks] or [SELF]
+
+
+def _future_fields(ctx, ci, hook):
+    """fields of a future class that hold another future (its delegate): self fields on which the methods of the
+    class -- other than the cancel hook itself -- call the future protocol"""
+    out = set()
+    proto = ("running", "done", "result", "exception", "add_done_callback", "cancelled", "exception_info")
+    for c in ci.mro():
+        if not isinstance(c, ClassInfo):
+            continue
+        for m in c.methods.values():
+            if m.name == hook or ci.lookup(m.name)[1] is not m:
+                continue
+            ps, it = ctx.paths(m, ci, depth=0)
+            for p in ps:
+                for e in p.calls():
+                    r = q.recv(e)
+                    if q.call_name(e) in proto and q.self_field(r):
+                        out.add(r[2])
+    return out
+
+
+def _callers_hold(ctx, fi, cs, Qx):
     for ck, cik in cs:
         cfi = ctx.prog.functions[ck]
         cci = ctx.prog.classes.get(cik) if cik else None
@@ -176,7 +305,7 @@ def _callers_hold(ctx, fi, cs, owner, lk):
             for e in p.calls():
                 if e.d["callee"] is fi and e.fn is cfi:
                     r = q.recv(e)
-                    if not (r is not None and q.has_lock(e, ("attr", r, lk))):
+                    if not (r is not None and Qx.lock_held(e, r)):
                         return False
     return True
 
@@ -184,57 +313,77 @@ def _callers_hold(ctx, fi, cs, owner, lk):
 def _may_be_true(v, p):
     if v == ("const", False) or v == ("const", None):
         return False
-    if isinstance(v, tuple) and p.assume.get(v) is False:
+    if isinstance(v, tuple) and q.truth_of(p, v) is False:
         return False
     return True
 
 
-def _source(v, p, it, dcs):
+def _source(v, p, it, dcs, queues, CFS):
     """why may this path return a true value?"""
     # (a) the delegate's cancel() result
     for e in dcs:
-        res = ("call", e.d["func"], e.d["args"], e.d["kwargs"], None)
-        if v == res:
+        if v == q.result_of(e):
             return "delegate cancel() result"
     if v == ("const", True):
         # (a') delegate cancel() succeeded on this path
         for e in dcs:
-            res = ("call", e.d["func"], e.d["args"], e.d["kwargs"], None)
-            if p.assume.get(res) is True:
-                # retry: True after the delegate's cancel() answered True
+            if q.truth_of(p, q.result_of(e)) is True:
                 return "after a successful delegate cancel()"
-        # (b) removal from a queue under its lock: directly, or through a helper that searches the queue for
-        # the job it is given and removes it, called while the lock under which the job was found is still held
-        for e in p.calls():
-            r = q.recv(e)
-            if q.call_name(e) in ("remove", "pop", "popleft") and isinstance(r, tuple) and r[0] == "attr" and r[2] in ("_to_submit", "_jobs"):
-                if any(l[1] == ("attr", r[1], "_lock") for l in e.locks):
-                    return "job removed from the queue under its lock"
-            c = e.d["callee"]
-            if c is not None and c.key in REMOVERS and r is not None and any(l[1] == ("attr", r, "_lock") for l in e.locks):
-                return "job removed from the queue (helper %s) under its lock" % c.name
+        # (b) the future's own job was found (by identity of its future) and removed from the queue, all under
+        # the queue's lock
+        for Qx, rem in queues:
+            F = Qx.roles["future"]
+            for e, j in removal_actions(p, it, Qx, rem):
+                owner = q.recv(e) if j is not None else q.recv(e)[1]
+                if not Qx.lock_held(e, owner):
+                    continue
+                for t, val, b in q.atoms(p):
+                    if val is True and b.seq < e.seq and isinstance(t, tuple) and t[0] == "cmp" and t[1] == "is":
+                        for x, y in ((t[2], t[3]), (t[3], t[2])):
+                            if isinstance(x, tuple) and x[0] == "attr" and x[2] == F and isinstance(y, tuple) and y[0] == "param":
+                                J = x[1]
+                                if (j == J or (j is None and _removes(e, J, p))) and roles.held_throughout(p, Qx.lock_term(e, owner), b, e):
+                                    return "job removed from the queue under its lock"
         # (c) poll: no cancel function / not in the polling stage
-        for b in p.evs("branch"):
-            t = b.d[0]
-            if isinstance(t, tuple) and t[0] == "attr" and t[2] == "_cancel_fn" and b.d[1] is False:
+        for t, val, b in q.atoms(p):
+            if isinstance(t, tuple) and t[0] == "attr" and t[2] in CFS and val is False:
                 return "no cancel function"
-            if isinstance(t, tuple) and t[0] == "comp" and b.d[1] is False:
-                return "not in the polling stage"
-            if isinstance(t, tuple) and t[0] == "local":
-                pass
-        for t, val in p.branch_atoms():
-            if val is False and isinstance(t, tuple) and contains(t, ("attr", ("attr", ("param", "self"), "_executor"), "_poll_descriptors")):
+            if isinstance(t, tuple) and t[0] == "comp" and val is False and t[4]:
                 return "not in the polling stage"
         return None
     # (c) the cancel function's own answer
-    if isinstance(v, tuple) and v[0] == "call" and isinstance(v[1], tuple) and v[1][0] == "attr" and v[1][2] == "_cancel_fn":
-        return "cancel function's answer"
+    for e in p.calls():
+        if e.d.get("user") and v == q.result_of(e) and isinstance(e.d["func"], tuple) and e.d["func"][0] == "attr" and e.d["func"][2] in CFS:
+            return "cancel function's answer"
     return None
 
 
-def _pa_only(callee, ev, path):
+def _removes(e, J, p):
+    """does the removal event e remove job J?  remove(J) / pop(index of the element found identical to J)"""
+    a = e.d["args"]
+    if q.call_name(e) == "remove":
+        return a == (J,)
+    if q.call_name(e) == "pop" and len(a) == 1:
+        idx = a[0]
+        if not (isinstance(idx, tuple) and idx[0] in ("index", "unpack")):
+            return False
+        for t, val, b in q.atoms(p):
+            if val is True and b.seq < e.seq and isinstance(t, tuple) and t[0] == "cmp" and t[1] == "is" and J in (t[2], t[3]):
+                other = t[3] if t[2] == J else t[2]
+                if _same_iteration(idx, other):
+                    return True
+        return False
     return False
 
 
-def _loop_inline(callee, ev, path):
-    return callee.name in ("_get_next_job", "is_shutdown")
+def _same_iteration(idx, elem):
+    """index term and element term stem from the same enumerate() iteration"""
+    def root(t):
+        while isinstance(t, tuple) and t and t[0] == "unpack":
+            t = t[1]
+        return t
+    ri, re_ = root(idx), root(elem)
+    if ri == re_:
+        return True
+    # index(src, site) vs elem(src, site)
+    return isinstance(ri, tuple) and isinstance(re_, tuple) and len(ri) >= 3 and len(re_) >= 3 and ri[1:3] == re_[1:3]
